@@ -199,12 +199,15 @@ def roundOpt (q : Rat) : Option Int → Rat
   | none => q
   | some p => pyRound q p
 
+/-- one step of the loop of `chem_mass`: an unknown key raises -/
+def chemStep (mono : Bool) (acc : Rat) (p : Elem × Rat) : Except Err Rat :=
+  match elemMass mono p.1 with
+  | none => Except.error Err.invalidChemFormula
+  | some μ => pure (acc + μ * p.2)
+
 /-- `chem_mass(composition, monoisotopic, precision)` -/
 def chemMass (mono : Bool) (c : Comp) (precision : Option Int := none) : Except Err Rat := do
-  let m ← c.foldlM (fun acc p =>
-    match elemMass mono p.1 with
-    | none => Except.error Err.invalidChemFormula
-    | some μ => pure (acc + μ * p.2)) (0 : Rat)
+  let m ← c.foldlM (chemStep mono) (0 : Rat)
   pure (roundOpt m precision)
 
 /-! ### derived constant tables (constants.py / chem_constants.py) -/
